@@ -1,2 +1,54 @@
-(* C27 — placeholder while the correspondence is being established *)
-From AG Require Import SubEvents.
+(* C27 — each subscription response holds exactly its own event's data and errors. *)
+From AG Require Import SubEvents SubEventsProofs.
+Open Scope N_scope.
+
+(* For ALL stream configurations (per-event plans) and ALL schedules of
+   push / close / open-gate / poll: if no event execution ran while another
+   root field's execution was in progress, every response carries exactly
+   the errors raised by its own event (what `take` returned = what its own
+   execution raised), i.e. today's responses equal the per-event ones. *)
+Theorem C27_atomic : forall cfg acts,
+  overlapped cfg acts = false ->
+  Forall (Forall good) (snd (run (init cfg) acts)) /\ responses_today cfg acts = responses_own cfg acts.
+Proof. intros cfg acts H. split; [apply atomic_run; exact H|apply atomic_responses; exact H]. Qed.
+
+(* the two sufficient conditions of the property text *)
+Theorem C27_atomic_single_root_field : forall cfg acts,
+  (length cfg <= 1)%nat -> responses_today cfg acts = responses_own cfg acts.
+Proof. exact atomic_single. Qed.
+
+Theorem C27_atomic_ready_resolvers : forall q S w d c n cfg acts,
+  g_gated c = [] -> sub_cfg q S w d c n = Some cfg -> responses_today cfg acts = responses_own cfg acts.
+Proof. exact atomic_ready. Qed.
+
+(* known finding: two root fields, a failing nullable resolver, a suspended sibling:
+   the error of fa's event is delivered with fb's event and missing from its own *)
+Theorem C27_interleaved_refuted :
+  with_cfg w_gates (fun cfg => (length cfg, overlapped cfg w_sched, responses_today cfg w_sched, responses_own cfg w_sched)) =
+  Some (2%nat, true,
+        [[]; [ORes resp_fb [err_fa]]; [ORes resp_fa []]],
+        [[]; [ORes resp_fb []]; [ORes resp_fa [err_fa]]]).
+Proof. exact witness_interleaved. Qed.
+
+(* non-vacuity: the same request with ready resolvers *)
+Theorem C27_nonvacuous :
+  with_cfg w_nogates (fun cfg => (overlapped cfg w_sched, responses_today cfg w_sched)) =
+  Some (false, [[ORes resp_fa [err_fa]]; [ORes resp_fb []]; []]).
+Proof. exact witness_atomic. Qed.
+
+(* a query or mutation through execute_stream: exactly execute's response, then the end *)
+Theorem C27_query_via_stream : forall q S w d opname vars n r,
+  impl_exec q S w d opname vars n = Ok r ->
+  stream_of_query q S w d opname vars n = Ok [ORes (rs_data r) (rs_errors r); OEnd].
+Proof. exact query_via_stream. Qed.
+
+Check C27_atomic : forall cfg acts, overlapped cfg acts = false ->
+  Forall (Forall good) (snd (run (init cfg) acts)) /\ responses_today cfg acts = responses_own cfg acts.
+Check C27_atomic_single_root_field : forall cfg acts, (length cfg <= 1)%nat -> responses_today cfg acts = responses_own cfg acts.
+
+Print Assumptions C27_atomic.
+Print Assumptions C27_atomic_single_root_field.
+Print Assumptions C27_atomic_ready_resolvers.
+Print Assumptions C27_interleaved_refuted.
+Print Assumptions C27_nonvacuous.
+Print Assumptions C27_query_via_stream.
